@@ -365,7 +365,7 @@ def gen_iface(d, name, version):
             entries.append([n, gen_literal(d, v)])
         enums.append(dict(name=en, bitfield=bitfield, entries=entries))
     msgs = []
-    for mn in d.subset(MSGNAMES, 1, 4):
+    for mn in ([] if d.chance(0.12) else d.subset(MSGNAMES, 1, 4)):      # (an interface may consist of enums only)
         args = []
         for an in d.subset(ARGNAMES, 0, 5):
             t = d.choice(['int', 'uint', 'uint', 'fixed', 'string', 'object', 'new_id', 'array', 'fd'])
